@@ -5,4 +5,4 @@ Extraction Language OCaml.
 (* the only directive beyond ExtrOcamlBasic: stdlib's List.rev is the quadratic one (rev l' ++ [x]); OCaml's List.rev is rev_append l [],
    which List.rev_alt proves equal.  Needed for 10 kB request lines (trim / ends_with / split_once reverse their argument). *)
 Extract Constant List.rev => "List.rev".
-Extraction "model.ml" parse_request generate get_header parse_range target_url process process_with all_headers mkFs mkCfg mkAssets multipart_parse multipart_generate parse_query form_urlencoded_parse encode_uri decode_uri in_F1 map_ok form_text_ok build_query setup env_get flag_table response_parse lib_generate Base64.encode Base64.decode parse_as_properties split_array round_trip flat_ok in_domain multipart_in_domain single_ok multi_ok Forms.parse_header cd_parse parse_range parse_cr_value read_config_bytes property_parse typed_read upath_parts upath_match upath_extract upath_build utf8_enc process_legacy Pool.accept_trace Pool.init Pool.dead Pool.done Pool.queue Pool.running.
+Extraction "model.ml" parse_request generate get_header parse_range target_url process process_with all_headers mkFs mkCfg mkAssets multipart_parse multipart_generate parse_query form_urlencoded_parse encode_uri decode_uri in_F1 map_ok form_text_ok build_query setup env_get flag_table response_parse rmp_parse lib_generate Base64.encode Base64.decode parse_as_properties split_array round_trip flat_ok in_domain multipart_in_domain single_ok multi_ok Forms.parse_header cd_parse parse_range parse_cr_value read_config_bytes property_parse typed_read upath_parts upath_match upath_extract upath_build utf8_enc process_legacy Pool.accept_trace Pool.init Pool.dead Pool.done Pool.queue Pool.running.
